@@ -21,6 +21,9 @@ pub mod c05;
 pub mod c10;
 pub mod c14;
 pub mod c15;
+#[cfg(feature = "builder")]
+pub mod c16;
+pub mod c17;
 pub mod c18;
 pub mod c20;
 
